@@ -107,7 +107,7 @@ def run(ctx):
     p2 = prog_lists(ctx, "Prog2.cfg")
     p4 = [p for p in prog_lists(ctx, "Prog4.cfg", simulate=400 if q else 6000) if len(p) >= 3]
     ops = (p2 if not q else [p for p in p2 if len(p) == 1] + rng.sample([p for p in p2 if len(p) == 2], 45)) + \
-        (p4[:25] if q else p4[:800])
+        (p4[:25] if q else p4[:2500])
     progs = [ao_program(rng, o, "c15-ao-%d-%d" % (ctx.seed, i), ctx.seed * 10000 + i) for i, o in enumerate(ops)]
     ndry = 36 if q else 300
     progs += [dry_program(rng, k, "c15-dry-%d-%d" % (ctx.seed, k), ctx.seed * 10000 + 5000 + k) for k in range(ndry)]
